@@ -13,7 +13,9 @@ RULE = ("generated graphs (filter grid with k <= 3 at t = 1, 2 + seeded order-2 
         "one accessor entry changed, from a live successor to -1, it carries the maximum of calculate_intersection_score computed on a copy "
         "before the call, the latter map lost exactly that successor, accessor and latter map describe the same graph, the returned "
         "objects are the ones passed in; scores have the accessor's shape, are >= 0, positive only on arcs and equal the set-based restatement of the "
-        "scoring scheme (contracts/specs.py intersection_scores); non-trivial = >= 2 calls returned")
+        "scoring scheme (contracts/specs.py intersection_scores); every grid graph is also run as an UNDISTURBED history (`pure`): no other library call "
+        "between two removals, the maximum taken from the independent restatement of the scheme - a result that depends on what an earlier call left "
+        "behind shows there; non-trivial = >= 2 calls returned")
 EXHAUSTIVE = {"quick": False, "thorough": False}
 CHUNK = 1
 
@@ -24,6 +26,8 @@ def cases(tier, rng):
             for t in (1, 2):
                 for flags in ((True, True), (True, False), (False, True), (False, False)):
                     yield {"src": "grid", "cfg": i, "t": t, "flags": list(flags), "nt": True}
+                if t == 2:
+                    yield {"src": "grid", "cfg": i, "t": t, "flags": [True, True], "pure": True, "steps": 20, "nt": True}
     for _ in range(40 if tier == "quick" else 300):
         yield {"src": "mask", "mask": rng.getrandbits(16) | rng.getrandbits(16), "t": rng.choice((1, 2)),
                "flags": [rng.random() < 0.5, rng.random() < 0.5], "nt": True}
@@ -52,12 +56,15 @@ def check(case):
     for step in range(steps):
         before = acc.copy()
         lm_before = copy.deepcopy(lm)
-        sc = outcome(calculate_intersection_score, copy.deepcopy(lm), k, ins, dele, limit=60)
-        if sc[0] != "ok":
-            fails.append(("scores:raises", f"{tag} step {step}: calculate_intersection_score -> {sc[:2]!r}"))
-            return fails
-        scores = sc[1]
         ref = S.intersection_scores({int(a): [int(x) for x in b] for a, b in lm.items()}, k, ins, dele)
+        if case.get("pure"):
+            scores = numpy.array(ref)          # undisturbed history: the library is not called between two removals
+        else:
+            sc = outcome(calculate_intersection_score, copy.deepcopy(lm), k, ins, dele, limit=60)
+            if sc[0] != "ok":
+                fails.append(("scores:raises", f"{tag} step {step}: calculate_intersection_score -> {sc[:2]!r}"))
+                return fails
+            scores = sc[1]
         if scores.tolist() != ref:
             fails.append(("scores:scheme", f"{tag} step {step}: intersection scores differ from the set-based restatement of the scoring scheme"))
             return fails
